@@ -122,4 +122,10 @@ CHECKS["C09"] = dict(level="exploration", technique="trace validation by TLC of 
          "run through a small state machine that tracks the supplied bracket's validity, the evaluation count and the last criterion call, "
          "and checks sound convergence, the iteration / evaluation budget and bracket confinement as invariants in every state.",
     note="The iteration itself is not transcribed into TLA+ (no exhaustive model checking of the algorithm): obligations on observed runs only.", ref="8/C09")
+CHECKS["C51"] = dict(level="exploration", technique="integer decision rules of the comparisons in TLA+ (Comparisons.tla); TLC-generated value-class lattice run through the real tfel-check and judged by TLC",
+    text="On dyadic values and precisions the four comparison criteria are exact integer inequalities, written in TLA+; TLC enumerates every "
+         "pair of values of {-2..2, NaN, +inf, -inf} at every row position for every type and precision (8 400 comparisons), the driver "
+         "writes the data and .check files, runs the real tfel-check and parses one verdict per comparison; TLC judges soundness "
+         "(success only if all pairs finite and within tolerance) and success of self-comparison.",
+    note="Area comparison and MTest's @Test are not covered. A '-inf' token in a multi-column data file is split by tfel-check's reader and shifts later columns: observed, outside the statement (single-column files are used).", ref="8/C51")
 NOT_APPLICABLE = {}
